@@ -1180,3 +1180,61 @@ func init() {
 		return nil
 	}
 }
+
+// jnodeEq: the term "the serialisations of x and y are byte-equal", decided
+// structurally (see bytes.Equal).
+func jnodeEq(p *pathState, x, y *jnode) *Term {
+	b := p.bank()
+	if x == nil || y == nil {
+		return b.Bool(x == y)
+	}
+	if x.k != y.k {
+		return b.Bool(false)
+	}
+	switch x.k {
+	case jNull:
+		return b.Bool(true)
+	case jBool:
+		return eqv(b, nil, x.v, y.v)
+	case jNum:
+		xs, xsym := x.v.(sym)
+		ys, ysym := y.v.(sym)
+		if !xsym && !ysym {
+			return b.Bool(fmt.Sprint(x.v) == fmt.Sprint(y.v))
+		}
+		if xsym && ysym && xs.k == ys.k {
+			return eqv(b, nil, x.v, y.v)
+		}
+		panic(unsupported{"bytes.Equal on JSON blobs: numbers of different symbolic kinds"})
+	case jStr:
+		xb, yb := strBytes(x.v), strBytes(y.v)
+		return bytesEqTerm(b, xb, yb)
+	case jArr:
+		if len(x.elems) != len(y.elems) {
+			return b.Bool(false)
+		}
+		var cs []*Term
+		for k := range x.elems {
+			cs = append(cs, jnodeEq(p, x.elems[k], y.elems[k]))
+		}
+		return b.And(cs...)
+	case jObj:
+		if len(x.fields) != len(y.fields) {
+			return b.Bool(false)
+		}
+		var cs []*Term
+		for k := range x.fields {
+			fx, fy := x.fields[k], y.fields[k]
+			kx, ky := strBytes(value(fx.key)), strBytes(value(fy.key))
+			if fx.key == "" && len(fx.skey) > 0 {
+				kx = strBytes(value(fx.skey))
+			}
+			if fy.key == "" && len(fy.skey) > 0 {
+				ky = strBytes(value(fy.skey))
+			}
+			cs = append(cs, bytesEqTerm(b, kx, ky), jnodeEq(p, fx.val, fy.val))
+		}
+		return b.And(cs...)
+	}
+	panic(unsupported{"bytes.Equal on JSON blobs: unknown node kind"})
+}
